@@ -545,6 +545,66 @@ let () =
             else if field outs "l2" <> e2 then "fail:large-mailbox-differs-after-mutation-and-reopen"
             else "ok" in
         Mlutil.print_model model verdict
+    | "size", [capf; poolf; nf; mutsf] ->
+        (* restart with a mailbox of MANY messages mutated right before the stop. The oracle is the ordered map on
+           strings; the Coq model is run next to it for n <= 50 (its index re-encoding per delivery is quadratic in
+           Coq's unary/list data), for larger n the model line is the ordered map's. *)
+        let ctx = mk_ctx capf poolf in
+        let n = int_of_string nf in
+        let fnv s = let h = ref 2166136261 in
+          String.iter (fun c -> h := ((!h lxor Char.code c) * 16777619) land 0xFFFFFFFF) s; !h in
+        let short l =
+          let cnt = if l = "-" || l = "" then 0 else List.length (split ';' l) in
+          Printf.sprintf "%d:%08x" cnt (fnv l) in
+        let tok j seen =
+          let b = Printf.sprintf "body %08d \r\n" j in
+          Printf.sprintf "k%d.big%d.1:%08x.%d.%s.%s" j j (fnv (Printf.sprintf "R0<r0m%d@to.example>," j)) (String.length b) (if seen then "1" else "0") (digest b) in
+        let muts = if mutsf = "-" then [] else List.map (fun m -> match split '.' m with
+          | [k; j] -> (k, int_of_string j) | _ -> failwith "size: mutation") (split ',' mutsf) in
+        let is j m = let p = "k" ^ string_of_int j ^ "." in
+          String.length m >= String.length p && String.sub m 0 (String.length p) = p in
+        let ab = ref [] in
+        for j = 0 to n - 1 do ab := spec_add ctx !ab (tok j false) done;
+        let eres = List.map (fun (k, j) ->
+          if not (List.exists (is j) !ab) then "notexist"
+          else begin
+            (if k = "r" then ab := List.filter (fun m -> not (is j m)) !ab
+             else ab := List.map (fun m -> if is j m then tok j true else m) !ab); "ok" end) muts in
+        let str l = if l = [] then "-" else String.concat ";" l in
+        let e0 = short (str !ab) in
+        let ab2 = spec_add ctx !ab (tok n false) in
+        let e2 = short (str ab2) in
+        let eres = String.concat "," (eres @ ["k" ^ string_of_int n]) in
+        let model =
+          if n > 50 then ["res=" ^ eres; "l0=" ^ e0; "l1=" ^ e0; "same=1"; "l2=" ^ e2]
+          else begin
+            let cadd j = OAdd (0, "big" ^ string_of_int j, 1600000000 + j, "x", 1) in
+            let render st =
+              match view dec st.d (ctx.hash (s2l (mbname ctx 0))) with
+              | None -> "ERR"
+              | Some [] -> "-"
+              | Some v -> String.concat ";" (List.map (fun ((_, m), _) ->
+                  let h = handle_of st 0 m.m_id in
+                  let j = int_of_string (String.sub h 1 (String.length h - 1)) in tok j m.m_seen) v) in
+            let st = ref (init_st ctx) in
+            for j = 0 to n - 1 do st := snd (do_op ctx !st (cadd j)) done;
+            let rs = List.map (fun (k, j) ->
+              if j >= n then "notexist" else begin
+                let (r, st') = do_op ctx !st (if k = "r" then ORemove (0, j) else OSeen (0, j)) in st := st'; r end) muts in
+            let l0 = short (render !st) in
+            let (r2, st2) = do_op ctx !st (cadd n) in
+            ["res=" ^ String.concat "," (rs @ [r2]); "l0=" ^ l0; "l1=" ^ l0; "same=1"; "l2=" ^ short (render st2)]
+          end in
+        let verdict =
+          match outs with
+          | ["POOL-DIFFERS"] -> "fail:hash-of-pool-names-changed"
+          | _ ->
+            if field outs "res" <> eres then "fail:operation-result-differs-from-ordered-map"
+            else if field outs "l0" <> e0 then "fail:listing-of-the-mailbox-differs-from-ordered-map"
+            else if field outs "l1" <> e0 || field outs "same" <> "1" then "fail:mailbox-differs-after-reopen"
+            else if field outs "l2" <> e2 then "fail:mailbox-differs-after-delivery-and-reopen"
+            else "ok" in
+        Mlutil.print_model model verdict
     | "srv", [capf; _poolf; _period; mailsf] ->
         (* the SERVER stopped and started again on the same storage path: the ordered map does not restart, and
            retention with period 0 (disabled) / hours removes nothing within the seconds a case takes *)
@@ -573,7 +633,7 @@ let () =
         let first = List.hd mails in
         st := List.map (fun (b, l) -> if b = first then (b, add l ("s" ^ string_of_int (List.length mails))) else (b, l)) !st;
         let l3 = render () in
-        let model = ["l1=" ^ l1; "l2=" ^ l2; "l3=" ^ l3; "same=1"] in
+        let model = ["l1=" ^ l1; "l2=" ^ l2; "l3=" ^ l3; "same=1"; "reissued=none"] in
         let verdict =
           match outs with
           | "SETUPERR" :: _ | "CRASH" :: _ | "HANG" :: _ | "NOOUTPUT" :: _ -> "fail:server-incarnation-did-not-run:" ^ String.concat "," outs
@@ -582,6 +642,7 @@ let () =
             else if field outs "l2" <> field outs "l1" || field outs "same" <> "1" then
               "fail:mailboxes-differ-after-server-restart"
             else if field outs "l3" <> l3 then "fail:delivery-after-server-restart-differs-from-ordered-map"
+            else if field outs "reissued" <> "none" && field outs "reissued" <> "MISSING" then "fail:id-of-removed-message-reissued"
             else "ok" in
         Mlutil.print_model model verdict
     | "conc", [capf; poolf; nf; kf; trialsf] ->
